@@ -108,9 +108,10 @@ def step (d : DState) (line : String) : DState × String :=
     | some l => if d.hist.isEmpty then ({ d with x := XState.init (mkUtxos l) }, "ok") else (d, "bad-op")
     | none => (d, "bad-op")
   | ["xf", a, to, amt] =>
-    match a.toNat?, to.toNat?, amt.toNat? with
+    -- `UTXOSandbox.Transfer` refuses every amount ≤ 0 by one test: amount 0 stands for all of them
+    match a.toNat?, to.toNat?, amt.toInt? with
     | some a, some to, some amt =>
-      match doX d (.xfer a to amt) with
+      match doX d (.xfer a to amt.toNat) with
       | (d', .xfer true) => (d', "ok")
       | (d', _) => (d', "err")
     | _, _, _ => (d, "bad-op")
